@@ -344,7 +344,7 @@ def sweep_plans(pilot_counters, quick, rng):
                         ("lock_timeout", [None]), ("write_fail", [None])):
         n = pilot_counters.get(kind, 0)
         idx = list(range(n))
-        lim = 3 if quick else 40
+        lim = 5 if quick else 40
         if n > lim:
             idx = sorted(rng.sample(idx, lim))
         for k in idx:
@@ -358,9 +358,9 @@ def sweep_plans(pilot_counters, quick, rng):
     return plans
 
 
-profiles.CHECKS["C12"] = {"profiles": [("lost_batch", 1.0)], "quick": {"runs": 2400}, "thorough": {"runs": 150000}}
+profiles.CHECKS["C12"] = {"profiles": [("lost_batch", 1.0)], "quick": {"runs": 4000}, "thorough": {"runs": 150000}}
 profiles.CHECKS["C11"] = {"profiles": [("crash_random", 1.0)], "sweep": "crash_sweep",
-                          "quick": {"runs": 1200, "pilots": 48}, "thorough": {"runs": 40000, "pilots": 400}}
+                          "quick": {"runs": 2000, "pilots": 110}, "thorough": {"runs": 40000, "pilots": 400}}
 profiles.LEVELS["C11"] = "fault_enumeration"
 profiles.LEVELS["C12"] = "fault_enumeration"
 profiles.RULES["C12"] = ("seeded scenario + fault plan: sbatch failures (all attempts / permanent / unparsable response / k transient) "
